@@ -1,6 +1,7 @@
 import ExprModel.Proofs.LexNumber
 import ExprModel.Proofs.LexString
 import ExprModel.Proofs.LexPos
+import ExprModel.Proofs.LexNumTok
 import ExprModel.Gen.LexTables
 /-
 C12 — Literals and token positions are lexed faithfully.
@@ -279,5 +280,44 @@ example : lex CharClass.ascii LexTables.std "a\n  not  in [1..2,\n\t\"é\\n\"]" 
 /-- I5 made visible: after the last token the recorded location is stale by one rune, which only the EOF
 token (placed at `prev`) shows: here EOF is reported at 1:1, the position *of* the last character -/
 example : lex CharClass.ascii LexTables.std "ab" = .ok [⟨.identifier, "ab", ⟨1, 0⟩⟩, ⟨.eof, "", ⟨1, 1⟩⟩] := by decide
+
+/-! ## Integer literals through the lexer -/
+
+/-- **decimal_lexes**: a decimal spelling alone in the source is exactly one Number token whose value is
+the spelling (so `decimal_roundtrip` applies to what the parser receives) -/
+theorem decimal_lexes (cc : CharClass) (hcc : cc.AsciiExact) (n : Nat) (seps : List Nat) :
+    ∃ l, lex cc LexTables.std (decimalSpelling n seps) =
+      .ok [{ kind := .number, value := decimalSpelling n seps, loc := ⟨1, 0⟩ }, { kind := .eof, value := "", loc := l }] := by
+  simp only [lex, decimalSpelling, String.toList_ofList]
+  exact lexChars_intShape cc hcc _ (intShape_decimal _ (digitsOf_ne_nil 10 n) (digitsOf_lt 10 (by decide) n) seps)
+
+/-- **hex_lexes**: likewise for every hexadecimal spelling, either prefix letter, `e`/`E` digits included:
+the lexer is not where hexadecimal literals with the digit `e` are lost -/
+theorem hex_lexes (cc : CharClass) (hcc : cc.AsciiExact) (mark : Char) (hm : mark = 'x' ∨ mark = 'X') (n : Nat)
+    (ups : List Bool) (k : Nat) (seps : List Nat) :
+    ∃ l, lex cc LexTables.std (hexSpelling mark n ups k seps) =
+      .ok [{ kind := .number, value := hexSpelling mark n ups k seps, loc := ⟨1, 0⟩ }, { kind := .eof, value := "", loc := l }] := by
+  simp only [lex, hexSpelling, String.toList_ofList]
+  exact lexChars_intShape cc hcc _ (intShape_hex mark hm _
+    (fun p hp => digitsOf_lt 16 (by decide) n p.1 (withCase_mem hp)) k seps)
+
+/-- **decimal_literal**: lexer and number conversion together, for the code's own tables and chain -/
+theorem decimal_literal (cc : CharClass) (hcc : cc.AsciiExact) (n : Nat) (hn : n < 2 ^ 63) (seps : List Nat) :
+    ∃ t l, lex cc Gen.lexTables (decimalSpelling n seps) = .ok [t, { kind := .eof, value := "", loc := l }] ∧
+      t.kind = .number ∧ t.loc = ⟨1, 0⟩ ∧ parseNumber Gen.numCfg t.value = .ok (.int n) := by
+  obtain ⟨l, h⟩ := decimal_lexes cc hcc n seps
+  refine ⟨{ kind := .number, value := decimalSpelling n seps, loc := ⟨1, 0⟩ }, l, ?_, rfl, rfl,
+    decimal_roundtrip_code n hn seps⟩
+  rw [tables_pinned]
+  exact h
+
+/-- **hex_literal** for the repaired chain (full) -/
+theorem hex_literal (cc : CharClass) (hcc : cc.AsciiExact) (mark : Char) (hm : mark = 'x' ∨ mark = 'X')
+    (n : Nat) (hn : n < 2 ^ 63) (ups : List Bool) (k : Nat) (seps : List Nat) :
+    ∃ t l, lex cc LexTables.std (hexSpelling mark n ups k seps) = .ok [t, { kind := .eof, value := "", loc := l }] ∧
+      t.kind = .number ∧ t.loc = ⟨1, 0⟩ ∧ parseNumber NumCfg.repaired t.value = .ok (.int n) := by
+  obtain ⟨l, h⟩ := hex_lexes cc hcc mark hm n ups k seps
+  exact ⟨{ kind := .number, value := hexSpelling mark n ups k seps, loc := ⟨1, 0⟩ }, l, h, rfl, rfl,
+    hex_roundtrip mark hm n hn ups k seps⟩
 
 end ExprModel.C12
